@@ -9,6 +9,7 @@ package sctp
 
 import (
 	"fmt"
+	"hash/crc32"
 	"io"
 	"strings"
 	"testing"
@@ -50,7 +51,16 @@ func vHsPacketSummary(raw []byte) string {
 	s := vPacketSummary(raw)
 	p := &packet{}
 	if err := p.unmarshal(false, raw); err != nil {
-		return s
+		fixed := append([]byte(nil), raw...)
+		if len(fixed) >= 12 {
+			fixed[8], fixed[9], fixed[10], fixed[11] = 0, 0, 0, 0
+			c := crc32.Checksum(fixed, crc32.MakeTable(crc32.Castagnoli))
+			fixed[8], fixed[9], fixed[10], fixed[11] = byte(c), byte(c>>8), byte(c>>16), byte(c>>24)
+		}
+		p = &packet{}
+		if err2 := p.unmarshal(false, fixed); err2 != nil {
+			return s
+		}
 	}
 	for _, c := range p.chunks {
 		switch v := c.(type) {
@@ -206,6 +216,23 @@ func vHSGenerate(h *vHS, r *vrand, nseq int) {
 		default:
 			h.do("hs start 1")
 			h.do("hs start 0")
+		}
+		if s%4 == 3 && role == 0 {
+			// scripted: a retransmission is queued while the reply that completes the handshake is already on its way;
+			// the write loop marshals the queued chunk AFTER that reply was processed
+			h.do("hs deliver 0 0")                   // INIT reaches B
+			h.do("hs deliver 1 %d", len(h.hist[1])-1) // INIT-ACK reaches A -> COOKIE-ECHO
+			if r.chance(50) {
+				h.do("hs t1q 0 init") // nothing stored any more
+			}
+			h.do("hs deliver 0 %d", len(h.hist[0])-1) // COOKIE-ECHO reaches B -> COOKIE-ACK
+			h.do("hs t1q 0 cookie")                   // T1-cookie fires at A: COOKIE-ECHO queued
+			if r.chance(30) {
+				h.do("hs t1q 0 cookie")
+			}
+			h.do("hs deliver 1 %d", len(h.hist[1])-1) // COOKIE-ACK processed by A, then its write loop runs
+			h.do("hs gather 0")
+			h.l.stat("hs.scripted_queued_rtx")
 		}
 		nops := 6 + r.n(30)
 		for i := 0; i < nops; i++ {
